@@ -220,7 +220,27 @@ def decide(assertions, timeout_ms=20000, cross=True):
     model = None
     if r == 'sat':
         _, ints = _walk_apps(full)
+        quick_model = None
         if ints:
+            # cheap attempt first: keep the abstraction's integer values and pin their true decimal renderings
+            m0 = get_model(full)
+            zm = m0.get('__z3model__') if m0 else None
+            if zm is not None:
+                pins = []
+                for t in ints:
+                    v = zm.eval(t, model_completion=True)
+                    if z3.is_int_value(v):
+                        pins.append(t == v)
+                        pins.append(I2S(t) == z3.StringVal(str(v.as_long())))
+                pr, ps = z3_check(full + pins, 3000)
+                if pr == 'unknown':
+                    pr, _ = cvc5_check(full + pins, 5000)
+                if pr == 'sat':
+                    quick_model = get_model(full + pins)
+        if ints and quick_model is not None:
+            model = quick_model
+            detail['exact_int_rendering'] = 'model validated with true decimal renderings'
+        elif ints:
             # a model found under the I2S abstraction may be spurious: re-pose with exact decimal rendering
             exact = [z3.substitute(a, *[(I2S(t), _exact_i2s(t)) for t in ints]) for a in assertions]
             exact = exact + axioms(exact)
